@@ -73,59 +73,12 @@ PROPS = {
     "C01": {
         "module": "BiscuitModel.Props.C01",
         "streams": ["chain"],
-        "level_text": "Lean 4 theorems over an abstract signature scheme: verify_iff_chain (acceptance under a root key is exactly: structural checks, authority signature under the root over the authority payload, every block signed by the previous next key over a payload containing its bytes, next key, algorithm, version and - version 1 - the actual previous signature and the external signature, external signatures over bytes + previous signature, proof = secret of the last next key or seal over last block + key + signature), and under an explicit unforgeability hypothesis: wrong_root_rejected, accepted_authority_is_honest, accepted_blocks_are_honest (every signature of an accepted token under a protected key is one an honest party made over exactly that payload), accepted_seal_is_honest, truncation_needs_earlier_secret; blockV1_injective / blockV0_injective / seal_payload_injective (the payloads determine every field, for equal lengths of the variable-length fields). The payload layouts in the theorems are regenerated from crypto/mod.rs on every run. Tie: tokens built through the API (both algorithms for root, block and external keys, signature versions 0 and 1, third-party blocks, sealed or not) and EVERY single structured mutation of the decoded wire message (each field of each block, swaps, drops, duplicates, splices between two tokens, proof manipulations, root key id, other root key, ECDSA (r, n-s)) are presented to Biscuit::from, from_base64 and UnverifiedBiscuit::verify; the compiled model predicts accept/reject with the ideal scheme whose valid signatures are exactly those of the honest tokens over the model-computed payloads.",
-        "level_note": "Cryptographic assumptions (unforgeability, signature lengths) are hypotheses of the theorems, not theorems. Open: payload injectivity without the equal-length hypothesis (needs the key/signature length facts of DESIGN Appendix A.3). Known finding recorded: secp256r1 signatures (r, n-s) are accepted.",
+        "level_text": "Lean 4 theorems over an abstract signature scheme: verify_iff_chain (acceptance under a root key is exactly: structural checks, authority signature under the root over the authority payload, every block signed by the previous next key over a payload containing its bytes, next key, algorithm, version and - version 1 - the actual previous signature and the external signature, external signatures over bytes + previous signature, proof = secret of the last next key or seal over last block + key + signature), and under an explicit unforgeability hypothesis: wrong_root_rejected, accepted_authority_is_honest, accepted_blocks_are_honest (every signature of an accepted token under a protected key is one an honest party made over exactly that payload), accepted_seal_is_honest, truncation_needs_earlier_secret; blockV1_injective_fixed / authorityV1_injective / externalV1_injective / sealed_injective / blockV0_injective (each payload determines every field it binds - version, block bytes, algorithm, next key, previous signature, external signature - whenever the two keys, the two previous signatures and the two external signatures have the lengths their algorithms fix; nothing is assumed about the block bytes), spliced_block_refused (under unforgeability and signatures that bind one message: a version-1 signature made by a protected key for block b0 after previous signature p0 is accepted, anywhere in any token, only on a block with b0's bytes, next key and external signature, placed after a block whose signature is p0 - moving, reordering or altering it is refused). The payload layouts in the theorems are regenerated from crypto/mod.rs on every run. Tie: tokens built through the API (both algorithms for root, block and external keys, signature versions 0 and 1, third-party blocks, sealed or not) and EVERY single structured mutation of the decoded wire message (each field of each block, swaps, drops, duplicates, splices between two tokens, proof manipulations, root key id, other root key, ECDSA (r, n-s)) are presented to Biscuit::from, from_base64 and UnverifiedBiscuit::verify; the compiled model predicts accept/reject with the ideal scheme whose valid signatures are exactly those of the honest tokens over the model-computed payloads.",
+        "level_note": "Cryptographic assumptions (unforgeability, signature lengths) are hypotheses of the theorems, not theorems. Payload injectivity is proved for fields whose lengths the algorithms fix (keys; ed25519 signatures); for two DER-encoded ECDSA signatures of different lengths it is open. Known finding recorded: secp256r1 signatures (r, n-s) are accepted.",
         "rule": "chain stream: seeded histories (1-4 blocks, two independent tokens per case for splicing); every stage presented as is and under another root; all single structured mutations of the last two stages; non-trivial = a mutation case or an honest token with at least one appended block; distinct = distinct case JSON",
         "trusted_base": ["tools/extract.py (payload layouts, schema field numbers regenerated from crypto/mod.rs and schema.proto)", "harness/src/s_chain.rs (history generator, structured mutations, prost decoding of the wire message)", "ed25519-dalek / p256 verifiers used independently of biscuit-auth to check real signatures over the model's payload bytes", "lean/Codec.lean, lean/Driver.lean"],
         "assumptions": ["unforgeability of ed25519 / ECDSA P-256 for keys whose secret the adversary does not hold", "prost decodes the mutated wire message as the library does"],
-        "open_obligations": ["payload_v1_injective without the equal-length hypothesis"],
-    },
-    "C03": {
-        "module": "BiscuitModel.Props.C03",
-        "streams": ["atten"],
-        "level_text": "Lean 4 theorems: attenuation_monotone_partial - END TO END over the executable authorizer of the model (Model/Authorizer.authorize: world construction, the fixpoint run, authorizer checks, authority checks, policies, the other blocks' checks): if the token extended by a first-party block is authorized by policy i, the original token's run stays within its limits and no expression fails while the extended token's checks and policies are evaluated, then the original token is authorized by the same policy i; worlds_vis_same (what the original world shows to anyone who does not trust the new block is what the extended world shows them), old_rules_avoid (no rule, check or policy that existed before trusts the appended block). They rest on theorems over the inductive derivability relation of C05 (which the engine computes exactly, run_exact): derives_mono (a block never removes a fact), derives_restrict (every pair derivable with the new block whose origin avoids it was derivable without it: base facts of the block carry its id, its rules stamp its id, old rules cannot see it), visible_facts_unchanged (for every trusted set not containing the new block the visible world is identical), old_scopes_exclude_new (no scope of an earlier block or of the authorizer reaches a newly appended block unless it names a key registered for it; previous stops at the element's own block). Together with C04's check/policy theorems (verdicts are functions of the visible facts) this is the attenuation argument; the end-to-end corollary over the executable authorize is listed as an open obligation. Tie: every generated (token, appended block, authorizer) is authorized with and without the block on the implementation and on the compiled model, full outcomes compared; and an implementation-only oracle checks the property itself (accepted extended => accepted original by the same policy; failed checks only grow) on every case where nobody names the new block's key.",
-        "level_note": "Trusted: Lean kernel (standard axioms), harness generator reach, JSON glue. Stated for evaluations without expression errors and non-binding limits (the property's quantifier). The end-to-end theorem is named _partial because it excludes third-party blocks (which are visible, by design, to the scopes naming their key - old_scopes_exclude_new states the exact condition) and evaluations with expression errors (whose outcome depends on iteration order: C11).",
-        "rule": "atten stream: seeded tokens of 1-3 blocks plus one appended first- or third-party block (facts/rules over the same predicates as the authority, scopes incl. previous, keys shared with earlier blocks), generated authorizers; both tokens authorized on both sides; non-trivial = both outcomes are decisions (ok/nomatch/unauth); distinct = distinct case JSON",
-        "trusted_base": ["harness/src/prog.rs, s_atten.rs, s_authz.rs", "lean/Codec.lean, lean/Driver.lean", "tools/props.py oracle_atten (used only to search for a failing input)"],
-        "assumptions": ["error-free programs under non-binding limits"],
-        "open_obligations": ["attenuation_monotone for third-party blocks not named by any earlier scope (the lemmas old_scopes_exclude_new / derives_restrict cover it; the end-to-end composition is stated for first-party blocks)"],
-    },
-    "C11": {
-        "module": "BiscuitModel.Props.C11",
-        "streams": ["determ"],
-        "level_text": "Lean 4 theorems with the iteration order of the hash stores as an explicit parameter (two orders = two lists with the same members): outcome_order_independent_partial (same facts and rules inserted in any order, both runs Ok, no binding of a check/policy fails => same acceptance, policy index and failed-check list; built on C05 run_order_independent and Lemmas/Congr.decide_same), failed_checks_in_declaration_order, and order_dependent_witness + witness_has_error showing that the full statement (including which error is reported) is false of the code. Tie: every generated case is built and authorized 16 (quick) / 128 (thorough) times from scratch with fresh hash seeds, permuted insertion order of authorizer facts and rules, reload and clone(); the set of distinct outcomes must be a singleton equal to the model's outcome unless the model marks the case as order-dependent (a matching and a failing binding coexist, or two different errors).",
-        "level_note": "Partial by nature: hash seeds are runtime behaviour; the model carries the order as a parameter. The order-dependence of error reporting is a recorded known finding (known_findings.jsonl C11-error-vs-match-order), replayed on every run.",
-        "rule": "determ stream: authz-style cases (half of them with expressions that fail for some bindings), N fresh builds each; non-trivial = case with at least one check or policy whose body is non-empty and a decision outcome; distinct = distinct case JSON",
-        "trusted_base": ["harness/src/s_determ.rs", "RandomState reseeding per HashMap in std (fresh builds give fresh iteration orders)"],
-        "assumptions": ["iteration orders actually exercised are those std's RandomState produces in N builds"],
-    },
-    "C09": {
-        "module": "BiscuitModel.Props.C09",
-        "streams": ["untrusted"],
-        "level_text": "Lean 4 theorems about the checked accessors that stand between untrusted data and an index (Model/Untrusted, Model/Symbols): block_access_checked (Biscuit::block / UnverifiedBiscuit::block succeed exactly for the indices below the block count - for EVERY index), block_access_error, block_access_value, getSymbol_total (a symbol id resolves exactly when it is a default symbol or an index into the table), getSymbol_gap (the ids between the 28 default symbols and the offset 1024 are unknown symbols), getSymbol_beyond, tempSymbol_beyond. Tie: stream untrusted, run in a child process with one flushed outcome line per case (a dead or stuck child gives the case it was on the outcome abort and a new child continues): random and damaged bytes / text into every entry point that takes external data (token bytes and base64, verified, unverified and deprecated; third-party requests and blocks; authorizer snapshots; saved policies; key strings, raw bytes, PEM and DER); correctly signed tokens (the harness signs with the keys it holds) whose block contents are adversarial - out-of-range symbol, key and variable ids incl. the gap 28..1023, malformed op sequences, unknown enum values, empty oneofs, wrong versions, duplicated or emptied tables, deep nesting, unbounded rules - followed by the full sweep on what loads (every block accessor for indices 0..count+2, print, Display, context, revocation ids, serialization, seal, append, third-party request and append, authorizer build, authorize / query under limits, print_world, dump, dump_code, save, snapshot; the same on UnverifiedBiscuit plus verify); adversarial third-party block contents signed by the external key; adversarial authorizer snapshots (iterations, limits, generated facts with unknown symbols, odd origins, adversarial blocks and policies) followed by every operation on what restores; Datalog source with invalid keys, arithmetic edge cases, catastrophic regexes, unbound parameters and nesting from 10 to 40000 levels. The model predicts the verdict of every block accessor for every index of the sweep and of every symbol lookup; the oracle requires a value or an error, never a panic, abort or hang.",
-        "level_note": "Partial by nature: panics, aborts, stack exhaustion and hangs are runtime behaviour which the model cannot exhibit; absence of them is established only as far as the stream reaches. What is proved is that the modelled accessors take the error branch exactly where the Rust code would otherwise index out of range.",
-        "rule": "untrusted stream: corpus (a fixed finding and the known one) first, then seeded cases in the proportions entry points 2 : signed adversarial tokens 4 : third-party contents 1 : snapshots 1 : Datalog source 1, one symbol-lookup probe every 40 cases; non-trivial = anything but an entry-point case that is refused; distinct = distinct case JSON",
-        "trusted_base": ["harness/src/s_untrusted.rs (generator, signing fixture craft_token, child-process isolation and watchdog)", "tools/props.py cmp_untrusted, oracle_untrusted", "lean/Codec.lean, lean/Driver.lean runUntrusted"],
-        "assumptions": [],
-    },
-    "C10": {
-        "module": "BiscuitModel.Props.C10",
-        "streams": ["limits", "engine"],
-        "level_text": "Lean 4 theorems about the engine loop and the authorizer's cumulative accounting: run_ok_within_facts / run_ok_within_iterations (a run that ends Ok held fewer facts than max_facts at every point it was checked, including the facts present before the first iteration, and made fewer productive iterations than max_iterations, also for 0), limit_hit_is_error, run_never_out_of_fuel (the loop ends by itself), timeout_at_checkpoint (abstract clock), and history_within_budget / successful_call_within_budget / exhausted_budget_refuses: over ANY history of authorize/query/query_all calls on one authorizer, including histories where earlier calls hit a limit, every successful call leaves counters within the budget. Tie: generated programs with limit triples at 0, 1, k-1, k, k+1 of the measured need and call histories of length 1-4 are run on the implementation and the compiled model; per call the result, iterations() and fact_count() are compared. Time is exercised with the cfg-guarded fake clock and a `tick` extern function: an implementation-only oracle checks that no call succeeds once the calls together have spent max_time.",
-        "level_note": "Partial for time: the model's clock is abstract (Limits.timeoutAt); wall-clock promptness and the cost of a single iteration are runtime behaviour no model here can exhibit. Time cases are decided by the oracle on the implementation only (search support), not by a theorem. Known finding recorded: the time budget restarts after a failed run.",
-        "rule": "limits stream: corpus (the three fixed findings) first; seeded authz-style programs, first with a generous budget to measure need, then three boundary budgets each, with histories of 1-4 calls; every fourth program also as a fake-clock time case; non-trivial = a history with a limit outcome or with more than one call; distinct = distinct case JSON",
-        "trusted_base": ["harness/src/s_limits.rs", "hook H1 (fake clock, biscuit-auth/src/time.rs under cfg biscuit_verif)", "tools/props.py oracle_limits"],
-        "assumptions": ["time: only what passes through the fake clock is observed"],
-    },
-    "C01": {
-        "module": "BiscuitModel.Props.C01",
-        "streams": ["chain"],
-        "level_text": "Lean 4 theorems over an abstract signature scheme: verify_iff_chain (acceptance under a root key is exactly: structural checks, authority signature under the root over the authority payload, every block signed by the previous next key over a payload containing its bytes, next key, algorithm, version and - version 1 - the actual previous signature and the external signature, external signatures over bytes + previous signature, proof = secret of the last next key or seal over last block + key + signature), and under an explicit unforgeability hypothesis: wrong_root_rejected, accepted_authority_is_honest, accepted_blocks_are_honest (every signature of an accepted token under a protected key is one an honest party made over exactly that payload), accepted_seal_is_honest, truncation_needs_earlier_secret; blockV1_injective / blockV0_injective / seal_payload_injective (the payloads determine every field, for equal lengths of the variable-length fields). The payload layouts in the theorems are regenerated from crypto/mod.rs on every run. Tie: tokens built through the API (both algorithms for root, block and external keys, signature versions 0 and 1, third-party blocks, sealed or not) and EVERY single structured mutation of the decoded wire message (each field of each block, swaps, drops, duplicates, splices between two tokens, proof manipulations, root key id, other root key, ECDSA (r, n-s)) are presented to Biscuit::from, from_base64 and UnverifiedBiscuit::verify; the compiled model predicts accept/reject with the ideal scheme whose valid signatures are exactly those of the honest tokens over the model-computed payloads.",
-        "level_note": "Cryptographic assumptions (unforgeability, signature lengths) are hypotheses of the theorems, not theorems. Open: payload injectivity without the equal-length hypothesis (needs the key/signature length facts of DESIGN Appendix A.3). Known finding recorded: secp256r1 signatures (r, n-s) are accepted.",
-        "rule": "chain stream: seeded histories (1-4 blocks, two independent tokens per case for splicing); every stage presented as is and under another root; all single structured mutations of the last two stages; non-trivial = a mutation case or an honest token with at least one appended block; distinct = distinct case JSON",
-        "trusted_base": ["tools/extract.py (payload layouts, schema field numbers regenerated from crypto/mod.rs and schema.proto)", "harness/src/s_chain.rs (history generator, structured mutations, prost decoding of the wire message)", "ed25519-dalek / p256 verifiers used independently of biscuit-auth to check real signatures over the model's payload bytes", "lean/Codec.lean, lean/Driver.lean"],
-        "assumptions": ["unforgeability of ed25519 / ECDSA P-256 for keys whose secret the adversary does not hold", "prost decodes the mutated wire message as the library does"],
-        "open_obligations": ["payload_v1_injective without the equal-length hypothesis"],
+        "open_obligations": ["payload injectivity when two DER-encoded ECDSA signatures of different lengths are compared (lengths are not fixed by the algorithm)"],
     },
     "C02": {
         "module": "BiscuitModel.Props.C02",
@@ -174,14 +127,15 @@ PROPS = {
         "assumptions": ["order-dependent cases (C11) are left to C11"],
     },
     "C14": {
-        "module": "BiscuitModel.Props.C14",
-        "streams": ["print"],
-        "level_text": "Lean 4 theorems about an executable model of both printer families and of the literal parsers (Model/Printer): string_lit_round_trip (for EVERY string - quotes, backslashes, newlines, any scalar value - and every continuation of the text, the string parser reads the printed literal back as exactly that string and stops right after its closing quote: no string value can make printed text parse as different code), hex_round_trip and int_round_trip (the same for every non-empty byte string and every 64-bit integer, given that the next character is not a digit of that literal), postfix_print_infix / printExpr_opcodes (Expression::print, a stack machine over postfix ops with nested closure bodies, renders the op list of ANY expression tree as that tree's infix text, so the only parentheses printed are the explicit Parens nodes), and singleton_set_prints_as_parameter (the printer is not injective: the witness of the known finding). Tie: stream print - facts, rules, checks, policies, block sources and authorizer dumps generated over every term type, nested collections, every operator and method, closures, scopes with both key algorithms, strings over the full scalar range; the model's text is compared with Display of the builder item, with Biscuit::print_block_source (SymbolTable printers) and with the BlockBuilder Display; an implementation-only oracle requires that the real parser accepts the printed text and returns a structurally identical item (for blocks: identical serialized block after print_block_source -> BlockBuilder::code -> build; for authorizers: identical snapshot after dump_code -> AuthorizerBuilder::code). A third of the expression-bearing items are the parser's own output on text printed with parentheses left out at random, i.e. ASTs the grammar derives by construction.",
-        "level_note": "Partial: the inverse direction for whole terms, predicates and expressions - that the combinator parser (term alternatives, set/array/map framing, the operator-precedence layers expr..expr9) inverts the printer on every AST it can produce - is not a theorem; it is decided per generated item by running the real parser (oracle). Dates are printed by an executable RFC 3339 formatter in the model that is validated by the stream only. Items that contain unbound {parameters} are outside this property's stream (C20).",
-        "rule": "print stream: corpus (fixed findings and the known one) first, then seeded items; non-trivial = the item contains a quote or backslash inside a string, an operator, a map, or a scope; distinct = distinct case JSON",
-        "trusted_base": ["harness/src/s_print.rs (generator, AST<->JSON, structural comparison)", "tools/props.py cmp_print (texts compared modulo the order of set and map elements), oracle_print", "lean/Codec.lean, lean/Driver.lean"],
+        "module": "BiscuitModel.Props.C14Terms",
+        "more_modules": ["BiscuitModel.Props.C14"],
+        "streams": ["print", "termparse"],
+        "level_text": "Lean 4 theorems about an executable model of both printer families (Model/Printer) and of the term / fact parser (Model/TermParser: fact_inner, name, term_in_fact, term_in_set, parameter, string, date, integer, bytes, boolean, null, array, parse_map, map_key, set, with nom's alt / cut / separated_list / multispace0 written out and the two error classes Error / Failure kept apart): fact_round_trip (for EVERY fact the grammar derives - valid names, 64-bit integers, any strings, non-empty byte strings, homogeneous sets, arrays, maps, parameters, nested to any depth, the one ambiguous printed form {true} / {null} / {hex:..} excluded - and EVERY text that follows it, the parser model run on the printed fact returns exactly that fact and leaves exactly that text; by mutual structural induction over the term, with the fuel the driver uses proved sufficient: needT_le / needL_le), printPred_eq_predC (the character-level printer of that theorem is the printer model compared with Display), and the lexeme theorems it is built from: string_lit_round_trip (for EVERY string - quotes, backslashes, newlines, any scalar value - and every continuation of the text, the string parser reads the printed literal back as exactly that string and stops right after its closing quote: no string value can make printed text parse as different code), hex_round_trip and int_round_trip (the same for every non-empty byte string and every 64-bit integer, given that the next character is not a digit of that literal), postfix_print_infix / printExpr_opcodes (Expression::print, a stack machine over postfix ops with nested closure bodies, renders the op list of ANY expression tree as that tree's infix text, so the only parentheses printed are the explicit Parens nodes), and singleton_set_prints_as_parameter (the printer is not injective: the witness of the known finding). Tie: stream print - facts, rules, checks, policies, block sources and authorizer dumps generated over every term type, nested collections, every operator and method, closures, scopes with both key algorithms, strings over the full scalar range; the model's text is compared with Display of the builder item, with Biscuit::print_block_source (SymbolTable printers) and with the BlockBuilder Display; an implementation-only oracle requires that the real parser accepts the printed text and returns a structurally identical item (for blocks: identical serialized block after print_block_source -> BlockBuilder::code -> build; for authorizers: identical snapshot after dump_code -> AuthorizerBuilder::code). A third of the expression-bearing items are the parser's own output on text printed with parentheses left out at random, i.e. ASTs the grammar derives by construction.",
+        "level_note": "Partial: for facts and all terms the inverse direction is a theorem (fact_round_trip) about the parser model that the termparse stream runs against the real fact_inner on printed, re-spaced, mutated and random text (result, rest of input and nom error class must agree); for expressions, rule bodies, checks and policies (the operator-precedence layers expr..expr9) it is not a theorem and is decided per generated item by running the real parser (oracle). RFC 3339 parsing is the time crate: a parameter of the model, supplied per case by the harness calling time directly; the theorem assumes that it accepts only tokens shaped YYYY-... (checked on every table) and that it reads each printed date of the term back (dateOK, part of the well-formedness check). Sets and maps are compared as sets / maps (BTreeSet / BTreeMap collection is not modelled). Dates are printed by an executable RFC 3339 formatter in the model that is validated by the stream only. Items that contain unbound {parameters} are outside this property's stream (C20).",
+        "rule": "print stream: corpus (fixed findings and the known one) first, then seeded items; non-trivial = the item contains a quote or backslash inside a string, an operator, a map, or a scope; termparse stream: printed facts (with a tail), re-spaced, 1-3 character mutations of printed facts, token soup; non-trivial = the text contains a bracket or brace; distinct = distinct case JSON",
+        "trusted_base": ["harness/src/s_print.rs (generator, AST<->JSON, structural comparison)", "harness/src/s_termparse.rs (text generator, date table computed with the time crate)", "tools/props.py cmp_print (texts compared modulo the order of set and map elements), oracle_print, cmp_termparse (sets and maps compared as such)", "lean/Codec.lean, lean/Driver.lean"],
         "assumptions": [],
-        "open_obligations": ["C14_full: parse (print x) = x for every grammar-derivable item, as a theorem about a model of the whole parser"],
+        "open_obligations": ["parse (print x) = x for expressions, rule bodies, checks, policies and whole blocks as a theorem (the operator-precedence layers expr..expr9, predicates with variables, scopes); proved for facts and every term inside them (fact_round_trip)"],
     },
     "C15": {
         "module": "BiscuitModel.Props.C15",
@@ -983,7 +937,42 @@ def match_capi_key_buffer(k, d):
     return "pk_serialize" in d["impl"].get("at", "")
 
 
-COMPARATORS = {"capi": cmp_capi, "macros": cmp_macros, "untrusted": cmp_untrusted, "keys": cmp_keys, "params": cmp_params, "print": cmp_print, "snapshot": cmp_snapshot, "symbols": cmp_symbols, "versions": cmp_versions, "chain": cmp_chain, "limits": cmp_limits, "expr": cmp_default, "engine": cmp_engine, "authz": cmp_authz, "atten": cmp_atten, "determ": cmp_determ}
+def cmp_termparse(case, impl, model):
+    """the parser model against fact_inner: same result (sets and maps compared as such), same rest, same error class;
+    and the date table obeys what the theorem assumes of the RFC 3339 parser"""
+    if "driver_error" in model:
+        return "driver error: %s" % model["driver_error"]
+    if "panic" in impl:
+        return "fact_inner panicked: %s" % impl["panic"][:200]
+    for tok, _ in case.get("dates", []):
+        if not (len(tok) > 4 and tok[0].isdigit() and tok[0].isascii() and tok[4] == "-"):
+            return "the RFC 3339 parser accepted a token outside the assumed shape: %r" % tok
+    def ct(t):
+        # BTreeSet: duplicates collapse; BTreeMap: a later entry replaces an earlier one with the same key
+        if isinstance(t, dict):
+            if "set" in t:
+                u = {json.dumps(x, sort_keys=True): x for x in (ct(x) for x in t["set"])}
+                return {"set": [u[k] for k in sorted(u)]}
+            if "arr" in t:
+                return {"arr": [ct(x) for x in t["arr"]]}
+            if "map" in t:
+                u = {}
+                for k, v in t["map"]:
+                    u[json.dumps(k, sort_keys=True)] = [k, ct(v)]
+                return {"map": [u[k] for k in sorted(u)]}
+        return t
+    def canon(o):
+        o = dict(o)
+        if "terms" in o:
+            o["terms"] = [ct(t) for t in o["terms"]]
+        return o
+    a, b = canon(impl), canon(model)
+    if a != b:
+        return "fact_inner and the parser model differ on %r: %s vs %s" % (case["text"][:200], json.dumps(impl)[:300], json.dumps(model)[:300])
+    return None
+
+
+COMPARATORS = {"termparse": cmp_termparse, "capi": cmp_capi, "macros": cmp_macros, "untrusted": cmp_untrusted, "keys": cmp_keys, "params": cmp_params, "print": cmp_print, "snapshot": cmp_snapshot, "symbols": cmp_symbols, "versions": cmp_versions, "chain": cmp_chain, "limits": cmp_limits, "expr": cmp_default, "engine": cmp_engine, "authz": cmp_authz, "atten": cmp_atten, "determ": cmp_determ}
 
 
 def nontrivial(stream, case, impl):
@@ -1015,6 +1004,8 @@ def nontrivial(stream, case, impl):
         return case["kind"] != "decode" or case.get("mutation") != "none"
     if stream == "params":
         return len(case["binds"]) >= 1 and '"param"' in json.dumps(case["item"])
+    if stream == "termparse":
+        return any(c in case["text"] for c in "[{")
     if stream == "print":
         t = json.dumps(case["item"])
         return '\\"' in t or '\\\\' in t or '"bin"' in t or '"map"' in t or '"scopes": [{' in t
@@ -1163,6 +1154,8 @@ def signature(d):
             return "err:" + str(o["err"])
         if "panic" in o:
             return "panic"
+        if d["stream"] == "termparse":
+            return "r:" + str(o.get("r"))
         return ",".join(sorted(o.keys()))
     return (d["stream"], cls(d["impl"]), cls(d["model"]), d.get("why", "")[:40])
 
@@ -1304,6 +1297,8 @@ def fingerprint(why):
     """the reason of a failure without the data it quotes: a shortened case must fail for the same reason, not
     merely in the same class (a shortened item that is no longer well formed fails differently)"""
     import re
+    if why.startswith("fact_inner and the parser model differ"):
+        return "fact_inner and the parser model differ"
     w = re.sub(r'input: \\?"(?:[^"\\]|\\.)*\\?"', 'input', why)
     w = re.sub(r"\(text .*$", "", w, flags=re.S)
     w = re.sub(r"[0-9a-f]{8,}|\d+", "_", w)
@@ -1315,6 +1310,24 @@ def shrink(d, rerun, budget=60, pid=None):
     same way (same signature: stream, outcome classes, beginning of the reason) on a fresh run of both sides"""
     best = d
     want = (signature(d), fingerprint(d["why"]))
+    if d["stream"] == "termparse":
+        # delta debugging on the text: chunks of halving size are cut out while the two sides still differ
+        text = best["case"]["text"]
+        chunk = max(1, len(text) // 2)
+        while chunk >= 1 and budget > 0:
+            i, cut = 0, False
+            while i < len(text) and budget > 0:
+                cand = {"op": "termparse", "gen": "shrunk", "text": text[:i] + text[i + chunk:], "dates": []}
+                budget -= 1
+                im, mo = rerun(cand)
+                nd = still_fails(pid, "termparse", cand, im, mo, want) if im is not None else None
+                if nd:
+                    best, text, cut = nd, cand["text"], True
+                else:
+                    i += chunk
+            if not cut:
+                chunk //= 2
+        return best
     progress = True
     while progress and budget > 0:
         progress = False
